@@ -22,6 +22,7 @@ def _conjuncts(test):
 class Capacity(object):
     def __init__(self, ctx):
         self.ctx = ctx
+        self._oh = {}
         repo, folder = ctx.repo, ctx.folder
         self.P = repo.cls("connection:Packet")
         self.PH = repo.cls("connection:PacketHeader")
@@ -48,6 +49,12 @@ class Capacity(object):
         return v
 
     def overhead(self, n):
+        if n in self._oh:
+            return self._oh[n]
+        self._oh[n] = self._overhead(n)
+        return self._oh[n]
+
+    def _overhead(self, n):
         v = self.ctx.folder.run_program(self.overhead_fn, {self.overhead_fn.params[0]: n})
         if not isinstance(v, int):
             raise Undecided("capacity model: Packet.overhead(%d) does not fold" % n)
